@@ -200,6 +200,9 @@ func (e *Engine) doReturn(s *State, t *Thread, rv Value) stepResult {
 		return stepResult{kind: stepCont}
 	}
 	c := t.top()
+	if f.retHook == "nopcadvance" {
+		return stepResult{kind: stepCont} // caller's pc was advanced by the intrinsic that pushed this frame
+	}
 	in := c.block.Instrs[c.pc]
 	if _, isRD := in.(*ssa.RunDefers); isRD {
 		return stepResult{kind: stepCont} // re-execute RunDefers
